@@ -54,17 +54,37 @@ static int splitTlv(unsigned char *b, const unsigned n, const unsigned off, unsi
     end = off + 1 + h + len;
     return (int)(off + 1 + h);
 }
+// KNOWN-FINDING candidate (not a property violation, a C-language nicety): asn_parse_int()/asn_parse_unsigned_int() decode a
+// negative INTEGER with "value = -1; value = (value << 8) | octet" - a left shift of a negative int, undefined in C
+// (lib/snmplib/asn1.c:161,217). Every compiler in use yields the intended result, but the native UBSan build used for
+// differential replay aborts there. Entries that are replayed natively therefore leave negative INTEGERs out (assumed
+// below, at the positions the decoder reads as integers); c39_snmp_negint covers them in the interpreter only.
+static bool gAllowNegative = false;
+static void intAt(const unsigned char *b, const unsigned n, const int content, const unsigned end)
+{
+    if (!gAllowNegative && content >= 0 && (unsigned)content < end && (unsigned)content < n) vf_assume(!(b[content] & 0x80));
+}
 static void splitMessage(unsigned char *b, const unsigned n)
 {
     unsigned end = 0;
     int off = splitTlv(b, n, 0, end);                       // message SEQUENCE
     if (off < 0 || end > n) return;
-    for (int i = 0; i < 2; ++i) { if (splitTlv(b, n, off, end) < 0 || end > n) return; off = (int)end; }   // version, community
+    for (int i = 0; i < 2; ++i) {                           // version, community
+        const int c = splitTlv(b, n, off, end);
+        if (c < 0 || end > n) return;
+        if (i == 0) intAt(b, n, c, end);
+        off = (int)end;
+    }
     const unsigned pduAt = (unsigned)off;
     off = splitTlv(b, n, pduAt, end);                       // PDU header
     if (off < 0 || end > n) return;
     const bool trap = b[pduAt] == 0xA4;
-    for (int i = 0; i < (trap ? 5 : 3); ++i) { if (splitTlv(b, n, off, end) < 0 || end > n) return; off = (int)end; }
+    for (int i = 0; i < (trap ? 5 : 3); ++i) {              // request-id, error-status, error-index | enterprise, agent, 3 integers
+        const int c = splitTlv(b, n, off, end);
+        if (c < 0 || end > n) return;
+        if (!trap || i >= 2) intAt(b, n, c, end);
+        off = (int)end;
+    }
     off = splitTlv(b, n, off, end);                         // variable-bindings SEQUENCE
     if (off < 0 || end > n) return;
     const unsigned listEnd = end;
@@ -74,7 +94,10 @@ static void splitMessage(unsigned char *b, const unsigned n)
         if (off < 0 || bindEnd > n) return;
         if (splitTlv(b, n, off, end) < 0 || end > n) return;    // name
         off = (int)end;
-        if (splitTlv(b, n, off, end) < 0 || end > n) return;    // value
+        const unsigned valueAt = (unsigned)off;
+        const int c = splitTlv(b, n, off, end);                // value
+        if (c < 0 || end > n) return;
+        if (b[valueAt] == 0x02 || (b[valueAt] >= 0x41 && b[valueAt] <= 0x43)) intAt(b, n, c, end);
         off = (int)bindEnd;
     }
 }
@@ -121,10 +144,15 @@ static void receive(unsigned char *bytes, const unsigned len)
     WITNESS_POINT();
 }
 
+// template expansion: 0x01 = a fresh fully symbolic octet, 0x02 = the octet 0x01, 0x03 <count> <octet> = <count> copies of <octet>
 static unsigned fill(unsigned char *out, const char *tmpl, const unsigned len, const char *name)
 {
-    for (unsigned i = 0; i < len; ++i) out[i] = tmpl[i] == '\x01' ? vf_nondet_u8(name) : tmpl[i] == '\x02' ? 1 : (unsigned char)tmpl[i];
-    return len;
+    unsigned n = 0;
+    for (unsigned i = 0; i < len; ++i) {
+        if (tmpl[i] == '\x03') { for (unsigned r = 0; r < (unsigned char)tmpl[i + 1]; ++r) out[n++] = (unsigned char)tmpl[i + 2]; i += 2; continue; }
+        out[n++] = tmpl[i] == '\x01' ? vf_nondet_u8(name) : tmpl[i] == '\x02' ? 1 : (unsigned char)tmpl[i];
+    }
+    return n;
 }
 struct Tmpl { const char *s; unsigned n; };
 #define T(lit) {lit, sizeof(lit) - 1}
@@ -133,7 +161,7 @@ static void family(const Tmpl *tmpls, const unsigned count, const unsigned minLe
 {
     quiet();
     const unsigned k = (unsigned)vf_concretize(vf_range(0, count - 1, "template"));
-    unsigned char b[96];
+    unsigned char b[320];
     const unsigned full = fill(b, tmpls[k].s, tmpls[k].n, "byte");
     unsigned n = (unsigned)vf_concretize(vf_range(minLen, maxTrunc + 1, "len"));
     if (n > maxTrunc || n > full) n = full;
@@ -170,6 +198,7 @@ extern "C" void c39_snmp_header(void)
         T("\x30\x29\x02\x02\x01\x01\x06public" PDU_HEAD VARS),                 // version value, community type
         T("\x30\x29\x02\x02\x00\x04\x01pu\x01lic" PDU_HEAD VARS),              // community length, an octet in it (NUL!)
         T("\x30\x81\x01\x02\x02\x00\x04\x81\x01public" PDU_HEAD VARS),         // long-form lengths
+        T("\x30\x81\xA6\x02\x02\x00\x04\x81\x01\x03\x82" "c" PDU_HEAD VARS),       // community of up to 130 octets (Squid's buffer: 128)
 #ifdef VF_THOROUGH
         T("\x30\x01\x01\x02\x02\x00\x04\x06public" PDU_HEAD VARS),
         T("\x30\x29\x02\x01\x01\x01\x04\x06public" PDU_HEAD VARS),
@@ -207,6 +236,7 @@ extern "C" void c39_snmp_vars(void)
         T(MSG_HEAD PDU_HEAD "\x30\x11\x30\x0F\x06\x0B\x2B\x06\x02\x04\x02\x9B\x27\x02\x02\x02\x00\x01\x01"),        // value type, length
         T(MSG_HEAD PDU_HEAD "\x30\x11\x30\x0F\x06\x09\x2B\x06\x02\x04\x02\x9B\x27\x02\x02\x01\x01\x01\x01"),        // value type, length, 2 content octets
         T(MSG_HEAD PDU_HEAD "\x30\x11\x30\x06\x06\x02\x2B\x06\x01\x00" "\x30\x07\x06\x02\x2B\x06\x01\x01\x01"),     // two bindings
+        T("\x30\x65\x02\x02\x00\x04\x06public" "\xA0\x58\x02\x02\x05\x02\x02\x00\x02\x02\x00" "\x30\x4D\x30\x4B\x06\x01\x2B\x03\x46\x05\x05\x00"),   // a name of up to 71 sub-identifiers (MAX_NAME_LEN is 64)
 #ifdef VF_THOROUGH
         T(MSG_HEAD PDU_HEAD "\x30\x11\x30\x0F\x06\x08\x2B\x06\x02\x04\x02\x9B\x27\x02\x01\x01\x01\x01\x01"),
         T(MSG_HEAD PDU_HEAD "\x30\x11\x30\x0F\x06\x01\x01\x01\x01\x04\x02\x9B\x27\x02\x02\x02\x00\x05\x00"),
@@ -216,12 +246,27 @@ extern "C" void c39_snmp_vars(void)
     family(t, sizeof(t) / sizeof(*t), 24, 43);
 }
 
-// KNOWN-FINDING candidate (not part of any tier; add it to the spec's entry list to reproduce): a datagram of the maximum
-// receivable size, SNMP_REQUEST_SIZE-1 = 4095 octets, whose last binding's value starts in the last octets: the decoder reads
-// the type and length octets of an object before comparing against the remaining length (asn_parse_header/asn_parse_length),
-// here up to 3 octets behind snmpHandleUdp()'s static 4096-octet buffer. Same buffer discipline as in Squid: 4096 zeroed
-// octets, 4095 received.
-extern "C" void c39_snmp_maxlen(void)
+// negative INTEGERs at every position that is decoded as an integer (interpreter only, see gAllowNegative)
+extern "C" void c39_snmp_negint(void)
+{
+    static const Tmpl t[] = {
+        T("\x30\x29\x02\x02\x01\x04\x06public" PDU_HEAD VARS),                                                      // version
+        T(MSG_HEAD "\xA0\x1C\x02\x02\x01\x02\x02\x01\x02\x02\x01" VARS),                                                // request id, error status, error index
+        T(MSG_HEAD "\xA5\x1C\x02\x02\x05\x02\x02\x01\x02\x02\x01" VARS),                                                // GETBULK non-repeaters, max-repetitions
+        T("\x30\x2F\x02\x02\x00\x04\x06public" "\xA4\x22" "\x06\x02\x2B" "\x40\x04\x7F\x00\x00\x02" "\x02\x02\x01" "\x02\x02\x01" "\x43\x02\x01" "\x30\x0E\x30\x0C\x06\x08\x2B\x06\x02\x04\x02\x9B\x27\x02\x05\x00"),   // TRAP integers
+        T(MSG_HEAD PDU_HEAD "\x30\x11\x30\x0F\x06\x09\x2B\x06\x02\x04\x02\x9B\x27\x02\x02\x01\x02\x01\x01"),             // value: type symbolic, 2 content octets
+    };
+    gAllowNegative = true;
+    family(t, sizeof(t) / sizeof(*t), 40, 39);
+}
+
+// KNOWN FINDING (known_findings.json, C39-snmp-maxlen-overread): a datagram of the maximum receivable size,
+// SNMP_REQUEST_SIZE-1 = 4095 octets, whose last binding's value header ends with the datagram: the decoder reads the type and
+// length octets of an object before comparing against the remaining length (asn_parse_header/asn_parse_length), here 1-3
+// octets behind snmpHandleUdp()'s static 4096-octet buffer. Strict oracle (no padding beyond what Squid has): the real buffer
+// discipline with the real sizes - 4096 zeroed octets, 4095 received. Every other entry excludes this class through its
+// buffer model (datagram + 6 zero octets, i.e. datagrams of at most 4090 octets).
+extern "C" void c39_known_maxlen_overread(void)
 {
     quiet();
     enum { SZ = SNMP_REQUEST_SIZE, LEN = SNMP_REQUEST_SIZE - 1 };
@@ -240,7 +285,9 @@ extern "C" void c39_snmp_maxlen(void)
     buf[n++] = 0x30; buf[n++] = (unsigned char)(rest - 2); buf[n++] = 0x06; buf[n++] = (unsigned char)(rest - 6);
     while (n < LEN - 2) buf[n++] = 0x2B;
     buf[n++] = 0x04;                                  // value: OCTET STRING
-    buf[n++] = vf_nondet_u8("lengthoctet");           // e.g. 0x84: four length octets follow - behind the buffer
+    const unsigned char lengthOctet = vf_nondet_u8("lengthoctet");
+    vf_assume(lengthOctet >= 0x81 && lengthOctet <= 0x84);   // long-form length: 1-4 length octets follow - behind the datagram
+    buf[n++] = lengthOctet;
     vf_assert(n == LEN, "harness: datagram is 4095 octets");
     struct snmp_session session;
     memset(&session, 0, sizeof(session));
